@@ -13,6 +13,7 @@ pub mod snipbatch;
 pub mod c08;
 pub mod c10;
 pub mod c15;
+pub mod c17;
 pub mod c19;
 pub mod c20;
 
@@ -25,6 +26,7 @@ pub fn worker(prop: &str, case: &Value) -> Value {
         "C08" => c08::worker(case),
         "C10" => c10::worker(case),
         "C15" => c15::worker(case),
+        "C17" => c17::worker(case),
         "C19" => c19::worker(case),
         "C20" => c20::worker(case),
         _ => json!({"machinery": format!("no worker for {}", prop)}),
@@ -40,6 +42,7 @@ pub fn drive(prop: &str, tier: &str) -> i32 {
         "C08" => c08::drive(tier),
         "C10" => c10::drive(tier),
         "C15" => c15::drive(tier),
+        "C17" => c17::drive(tier),
         "C19" => c19::drive(tier),
         "C20" => c20::drive(tier),
         _ => {
